@@ -35,6 +35,9 @@ THEOREMS = [
     'Nb.C10.from_header_preserves_dtype_shape_zooms', 'Nb.C10.from_header_targets_ok',
     'Nb.C10.fromHeaderPixG_eq_fromHeaderPix',
     'Nb.C10.copy_fresh_buffer', 'Nb.C10.copy_alias_counterexample',
+    'Nb.C10.mem_separation_invariant', 'Nb.C10.mem_hdr_independent', 'Nb.C10.mem_bufs_untouched',
+    'Nb.C10.mem_ctor_faithful', 'Nb.C10.mem_ctor_faithful_plain', 'Nb.C10.mem_fromFile_faithful',
+    'Nb.C10.mem_copy_swap_independent', 'Nb.C10.mem_binaryblock', 'Nb.C10.mem_alias_counterexample',
     'Nb.C10.from_header_preserves_zooms', 'Nb.C10.from_header_pixdim_beyond_ndim_counterexample',
     'Nb.C10.layouts_wf', 'Nb.C10.layouts_declared_sizes', 'Nb.C10.layouts_names_distinct',
     'Nb.C10.dtcodes_consistent', 'Nb.C10.classes_consistent',
@@ -70,6 +73,18 @@ ASSUMPTIONS = [
     'tobytes + ndarray(buffer).copy() = a NEW buffer; the world stream runs histories of copy / as_byteswapped / field '
     'writes on several real objects and compares the bytes of EVERY object after the history with the model; the oracle '
     'checks after every single step that only the written object changed',
+    'who owns the bytes (Model/C10_Mem): memory cells + caller-side bytes-like containers (several may expose one cell, '
+    'each writable or not) + header objects viewing a cell; Mem.step models Klass(block, e|None, check=False) as '
+    'resolve/guess the order, size check (MGH: pad/truncate + goodRASFlag defaults), allocate a NEW cell (wstr.copy()), '
+    'from_fileobj as the constructor on the bytes read at the position, binaryblock as a new immutable container, '
+    'copy / same-class from_header / as_byteswapped(code) as the constructor on fresh bytes, hdr[f]=v and check_fix as '
+    'in-place writes of the viewed cell; the mem-* streams run histories over REAL containers (bytes, bytearray, '
+    'memoryview of either, uint8 / void / read-only ndarray, array.array, anonymous mmap, BytesIO file objects and '
+    'memoryview / ndarray / read-only views of all of them) and compare after EVERY step which objects changed or '
+    'appeared, with their bytes; CPython / NumPy buffer-protocol semantics (which container is writable, views share '
+    'memory, BytesIO.read returns a copy) are what the stream validates, not proved; zero-copy file objects whose read() '
+    'returns a view at an offset, MGHHeader.from_fileobj and Nifti1Header extensions (copy() shares the extension '
+    'objects) are not modelled',
     'floats are raw bit patterns; the checks use only sign/zero/NaN classes, abs (clears the sign bit, also of '
     'NaNs), the constant 1.0 and the exact dyadic value of vox_offset (FloatFmt.decode, validated against NumPy '
     'on the fdec stream); IEEE arithmetic itself is NumPy',
@@ -100,7 +115,18 @@ RULE = ('every endianness argument handed to the API (Klass(endianness=), Klass(
         'installed globally, on every defect subset / chkrand / setter-built header, plus pfix-levels = a header '
         'with ALL applicable defects swept over every level; the header is inspected after calls that RAISED; world = '
         'histories of 3-7 copy() / as_byteswapped() / field writes over up to 7 objects per class x byte order, bytes of '
-        'EVERY object compared after every step; fromhdr = conversions between all '
+        'EVERY object compared after every step; mem-<kind> = for every class x byte order x CONTAINER KIND of the '
+        'binaryblock argument (bytes, bytearray, memoryview(bytearray), memoryview(bytes), writable / read-only / void '
+        'uint8 ndarray, array.array, mmap, BytesIO through from_fileobj; MGH: bytes, bytearray, mmap) a populated header '
+        'block (1 in 3 with seeded defects) is put in such a container, a header is built from it, then 3-10 operations: '
+        'further containers / views (memoryview, ndarray, read-only) on the same memory, the caller overwriting the whole '
+        'block with the next record / one field / one byte, more headers from the same or another block in either byte '
+        'order (any spelling) or guessed, from_fileobj at an offset, field assignment, check_fix, copy, same-class '
+        'from_header, as_byteswapped(None / same / other order), binaryblock kept and re-used; after every step every '
+        'object is inspected; the binaryblock argument of the hdr / chk / pfix / aliases / defects / chkrand streams is '
+        'handed over in a random container kind too (60 %) and must still hold its bytes afterwards; ext = NIfTI headers '
+        'with 0-4 extensions: copy, as_byteswapped(same order) and from_header to every Analyze-family class keep the '
+        'extension list (independent list object); fromhdr = conversions between all '
         'Analyze-family classes; dt/codec/fdec = table and codec spec validation. A case is non-trivial when the '
         'header differs from the class default; distinct by (class, endianness, op, sha1 of bytes).')
 
@@ -437,6 +463,15 @@ def canon_reports(reps):
     return '[' + ','.join(f'{int(r.problem_level)}:{msg_token(r.problem_msg)}:{1 if r.fix_msg else 0}' for r in reps) + ']'
 
 
+def wrap_block(ck, bs):
+    """The binary block in the container kind `ck` the caller hands to the constructor."""
+    return bs if (ck in (None, 'bytes') or not bs) else MEM_KINDS[ck][1](bs)
+
+
+def block_kinds(cls):
+    return MGH_KINDS if cls == 'mgh' else tuple(k for k in sorted(MEM_KINDS) if k != 'bytesio')
+
+
 def make_hdr(cls, e, bs):
     K = classes()[cls]
     if cls == 'mgh':
@@ -447,7 +482,7 @@ def make_hdr(cls, e, bs):
 
 # ------------------------------------------------------------------ cases
 
-def mk_case(op, cls, e, bs, stream, valid=False, etrue=None, nontrivial=True, to=None):
+def mk_case(op, cls, e, bs, stream, valid=False, etrue=None, nontrivial=True, to=None, ck=None):
     """`e`: the endianness argument as SPELLED to the API (any endian_codes alias, or '?' = None);
     `to`: spelling passed to as_byteswapped (None = only the argument-less call)."""
     hx = bs.hex() or '-'
@@ -458,6 +493,8 @@ def mk_case(op, cls, e, bs, stream, valid=False, etrue=None, nontrivial=True, to
     else:
         raise ValueError(op)
     data = {'op': op, 'cls': cls, 'e': e, 'to': to, 'hex': hx, 'stream': stream, 'valid': valid, 'etrue': etrue}
+    if ck not in (None, 'bytes'):
+        data['ck'] = ck           # container kind of the binaryblock argument (the model does not depend on it)
     key = (op, cls, e, to, _sha(bs)) if nontrivial else None
     return Case(line, data, key, stream)
 
@@ -478,7 +515,7 @@ def _lv(l):
     return 'N' if l is None else str(int(l))
 
 
-def mk_pfix(cls, e, glob, lvls, bs, stream, valid=False, lg='arg', nontrivial=True):
+def mk_pfix(cls, e, glob, lvls, bs, stream, valid=False, lg='arg', nontrivial=True, ck=None):
     """The public `hdr.check_fix(logger, error_level=l)` for each l in `lvls` in sequence on ONE object
     (None = take imageglobals.error_level, which is set to `glob`); `lg`: 'arg' = a recording logger is
     passed, 'glob' = logger=None and the recorder is installed as imageglobals.logger."""
@@ -487,6 +524,8 @@ def mk_pfix(cls, e, glob, lvls, bs, stream, valid=False, lg='arg', nontrivial=Tr
     line = f'C10 pfix {cls} {e} {int(glob)} {",".join(_lv(l) for l in lvls)} {hx}'
     data = {'op': 'pfix', 'cls': cls, 'e': e, 'glob': int(glob), 'lvls': lvls, 'lg': lg, 'hex': hx,
             'stream': stream, 'valid': valid}
+    if ck not in (None, 'bytes'):
+        data['ck'] = ck
     key = ('pfix', cls, e, int(glob), tuple(lvls), _sha(bs)) if nontrivial else None
     return Case(line, data, key, stream)
 
@@ -508,14 +547,18 @@ def case_from_data(d):
     op = d['op']
     if op == 'world':
         return mk_world(d['cls'], d['e'], bytes.fromhex(d['hex']), [tuple(st) for st in d['script']], d.get('stream', 'world'))
+    if op == 'mem':
+        return mk_mem(d['cls'], d['script'], d.get('stream', 'mem'))
+    if op == 'ext':
+        return mk_ext(d['cls'], d['e'], bytes.fromhex(d['hex']), d['exts'], d.get('stream', 'ext'))
     if op == 'pfix':
         bs = b'' if d['hex'] == '-' else bytes.fromhex(d['hex'])
         return mk_pfix(d['cls'], d['e'], d['glob'], d['lvls'], bs, d.get('stream', 'corpus'), d.get('valid', False),
-                       d.get('lg', 'arg'))
+                       d.get('lg', 'arg'), ck=d.get('ck'))
     if op in ('hdr', 'chk'):
         bs = b'' if d['hex'] == '-' else bytes.fromhex(d['hex'])
         return mk_case(op, d['cls'], d['e'], bs, d.get('stream', 'corpus'), d.get('valid', False), d.get('etrue'),
-                       to=d.get('to'))
+                       to=d.get('to'), ck=d.get('ck'))
     if op == 'fromhdr':
         return mk_fromhdr(d['cls'], d['dst'], d['e'], bytes.fromhex(d['hex']), d.get('check', False))
     if op in ('dt', 'codec', 'fdec', 'fhpix'):
@@ -531,8 +574,9 @@ def impl_hdr(case):
     K = classes()[cls]
     bs = b'' if d['hex'] == '-' else bytes.fromhex(d['hex'])
     from nibabel.wrapstruct import WrapStructError
+    blk = wrap_block(d.get('ck'), bs)
     try:
-        h = make_hdr(cls, e, bs)
+        h = make_hdr(cls, e, blk)
     except WrapStructError:
         return 'ERR:WrapStructError'
     except KeyError:
@@ -540,7 +584,7 @@ def impl_hdr(case):
     bb = h.binaryblock
     c = h.copy()
     out = f'e={h.endianness} bb={bb.hex()} vals={canon_vals(h, K)} copy={int(bool(h == c) and c.binaryblock == bb)}'
-    ex = {'h': h, 'bb': bb, 'bs': bs}
+    ex = {'h': h, 'bb': bb, 'bs': bs, 'blk': blk}
     case.extra = ex
     tseg = ''
     if d.get('to') is not None:
@@ -570,15 +614,16 @@ def impl_chk(case):
     bs = b'' if d['hex'] == '-' else bytes.fromhex(d['hex'])
     from nibabel.wrapstruct import WrapStructError
     BatteryRunner = nb()['batteryrunners'].BatteryRunner
+    blk = wrap_block(d.get('ck'), bs)
     try:
-        h = make_hdr(cls, e, bs)
+        h = make_hdr(cls, e, blk)
     except WrapStructError:
         return 'ERR:WrapStructError'
     except KeyError:
         return 'ERR:KeyError'
     bb0 = h.binaryblock
     br = BatteryRunner(K._get_checks())
-    ex = {'bb0': bb0, 'K': K}
+    ex = {'bb0': bb0, 'K': K, 'blk': blk}
     case.extra = ex
     try:
         ro = br.check_only(h)
@@ -658,6 +703,356 @@ def oracle_world(case, out):
     return None
 
 
+# ------------------------------------------------------------------ memory: containers, headers, histories (Model/C10_Mem)
+
+# caller-side bytes-like containers handed to the constructor: name -> (writable, builder)
+def _mk_mmap(b):
+    import mmap
+    m = mmap.mmap(-1, max(len(b), 1))
+    m[:len(b)] = b
+    return m
+
+
+def _mk_array(b):
+    import array
+    return array.array('B', b)
+
+
+MEM_KINDS = {
+    'bytes': (False, lambda b: bytes(b)),
+    'bytearray': (True, lambda b: bytearray(b)),
+    'mv': (True, lambda b: memoryview(bytearray(b))),
+    'mvbytes': (False, lambda b: memoryview(bytes(b))),
+    'npu8': (True, lambda b: np.frombuffer(bytearray(b), dtype=np.uint8)),
+    'nparr': (True, lambda b: np.array(list(b), dtype=np.uint8)),
+    'npvoid': (True, lambda b: np.frombuffer(bytearray(b), dtype='V1')),
+    'npro': (False, lambda b: np.frombuffer(bytes(b), dtype=np.uint8)),
+    'array': (True, _mk_array),
+    'mmap': (True, _mk_mmap),
+    'bytesio': (True, lambda b: __import__('io').BytesIO(bytes(b))),      # a file object: from_fileobj only
+}
+MGH_KINDS = ('bytes', 'bytearray', 'mmap')       # MGHHeader slices and concatenates its block: `bytes`-like API needed
+MEM_VIEWS = {'mv': 0, 'np': 0, 'ro': 1, 'npro': 1}     # view kind -> read-only flag
+
+
+def _is_file(x):
+    import io
+    return isinstance(x, io.BytesIO)
+
+
+def _raw(x):
+    return x.getbuffer() if _is_file(x) else x
+
+
+def mem_view(x, vk):
+    """A second container on the SAME memory as `x`."""
+    if vk == 'mv':
+        return memoryview(_raw(x)).cast('B')
+    if vk == 'ro':
+        return memoryview(_raw(x)).cast('B').toreadonly()
+    a = np.frombuffer(_raw(x), dtype=np.uint8)
+    if vk == 'npro':
+        a = a.view()
+        a.flags.writeable = False
+    return a
+
+
+def mem_bytes(x):
+    if _is_file(x):
+        return x.getvalue()
+    if isinstance(x, np.ndarray):
+        return x.tobytes()
+    return bytes(x)
+
+
+def mem_poke(x, off, bs):
+    import array
+    n = len(bs)
+    if _is_file(x):
+        x.getbuffer()[off:off + n] = bs
+    elif isinstance(x, np.ndarray):
+        x.view(np.uint8)[off:off + n] = np.frombuffer(bs, dtype=np.uint8)
+    elif isinstance(x, array.array):
+        x[off:off + n] = array.array('B', bs)
+    else:
+        x[off:off + n] = bs
+
+
+def _tok_ok(sp):
+    return sp is not None and not any(ch in sp for ch in ',: ')
+
+
+def mem_tokens(script):
+    toks = []
+    for st in script:
+        o = st[0]
+        if o == 'A':
+            toks.append(f'A{int(MEM_KINDS[st[1]][0])}:{st[2] or "-"}')
+        elif o == 'V':
+            toks.append(f'V{st[1]}:{MEM_VIEWS[st[2]]}')
+        elif o == 'P':
+            toks.append(f'P{st[1]}:{st[2]}:{st[3] or "-"}')
+        elif o == 'C':
+            toks.append(f'C{st[1]}:{st[2]}')
+        elif o == 'F':
+            toks.append(f'F{st[1]}:{st[2]}:{st[3]}')
+        elif o in 'BKHX':
+            toks.append(f'{o}{st[1]}')
+        elif o == 'Y':
+            toks.append(f'Y{st[1]}:{"_" if st[2] is None else st[2]}')
+        elif o == 'S':
+            toks.append(f'S{st[1]}:{st[2]}:' + '/'.join(str(int(x)) for x in st[3]))
+        else:
+            raise ValueError(st)
+    return toks
+
+
+def mk_mem(cls, script, stream='mem'):
+    """A history over caller-side containers and headers of class `cls`:
+    ['A', kind, hex] new container | ['V', b, viewkind] second container on the memory of b | ['P', b, off, hex] write
+    through b | ['C', b, e] Klass(b, e, check=False) ('?' = guess) | ['F', b, off, e] b.seek(off); Klass.from_fileobj(b, e) |
+    ['B', h] h.binaryblock kept as a container | ['S', h, field, patterns] h[field] = items | ['K', h] copy |
+    ['H', h] Klass.from_header(h) | ['Y', h, to] as_byteswapped(to) | ['X', h] check_fix(error_level=1000)."""
+    script = [list(st) for st in script]
+    toks = mem_tokens(script)
+    line = f'C10 mem {cls} {NATIVE} {",".join(toks)}'
+    data = {'op': 'mem', 'cls': cls, 'script': script, 'stream': stream}
+    return Case(line, data, ('mem', cls, _sha(line.encode())), stream)
+
+
+def _mem_snapshot(bufs, hdrs):
+    return ([('b%d' % i, mem_bytes(x).hex() or '-') for i, x in enumerate(bufs)] +
+            [('h%d' % i, '%s:%s' % (h.endianness, h.binaryblock.hex() or '-')) for i, h in enumerate(hdrs)])
+
+
+def impl_mem(case):
+    d = case.data
+    cls = d['cls']
+    K = classes()[cls]
+    bufs, hdrs = [], []
+    snaps = [[]]
+    out = []
+    ex = {'bufs': bufs, 'hdrs': hdrs, 'snaps': snaps, 'exc': None}
+    case.extra = ex
+    earg = lambda e: None if e == '?' else e
+    for st in d['script']:
+        o = st[0]
+        try:
+            if o == 'A':
+                bufs.append(MEM_KINDS[st[1]][1](b'' if not st[2] else bytes.fromhex(st[2])))
+            elif o == 'V':
+                bufs.append(mem_view(bufs[st[1]], st[2]))
+            elif o == 'P':
+                mem_poke(bufs[st[1]], st[2], bytes.fromhex(st[3]) if st[3] else b'')
+            elif o == 'C':
+                hdrs.append(K(bufs[st[1]], check=False) if cls == 'mgh' else K(bufs[st[1]], earg(st[2]), check=False))
+            elif o == 'F':
+                bufs[st[1]].seek(st[2])
+                hdrs.append(K.from_fileobj(bufs[st[1]], endianness=earg(st[3]), check=False))
+            elif o == 'B':
+                bufs.append(hdrs[st[1]].binaryblock)
+            elif o == 'S':
+                _set_items(hdrs[st[1]], K, st[2], st[3])
+            elif o == 'K':
+                hdrs.append(hdrs[st[1]].copy())
+            elif o == 'H':
+                hdrs.append(K.from_header(hdrs[st[1]], check=False))
+            elif o == 'Y':
+                hdrs.append(hdrs[st[1]].as_byteswapped() if st[2] is None else hdrs[st[1]].as_byteswapped(st[2]))
+            elif o == 'X':
+                hdrs[st[1]].check_fix(logger=_quiet, error_level=1000)
+            else:
+                raise ValueError(st)
+        except OverflowError:
+            ex['exc'] = 'OverflowError'
+            return 'ERR:OverflowError'
+        except Exception as exn:      # noqa: BLE001 - any failure of a step is an observable
+            ex['exc'] = f'{type(exn).__name__}: {exn}'
+            out.append('ERR')
+            break
+        snap = _mem_snapshot(bufs, hdrs)
+        old = set(snaps[-1])
+        ch = [x for x in snap if x not in old]
+        out.append(';'.join(f'{n}={v}' for n, v in ch) if ch else '-')
+        snaps.append(snap)
+    return '|'.join(out)
+
+
+def expect_ctor_bytes(cls, K, bs):
+    """What a header of class `cls` built from the block `bs` must serialise to (MGH: padded / truncated to the
+    full size, orientation fields replaced by the documented defaults when goodRASFlag == 0)."""
+    if cls != 'mgh':
+        return bs
+    size = K.template_dtype.itemsize
+    expect = bs[:size] + b'\x00' * (size - len(bs))
+    lay = {f[0]: f for f in layout_of(K)}
+    o = lay['goodRASFlag'][1]
+    if expect[o:o + 2] == b'\x00\x00':
+        b = bytearray(expect)
+        b[o:o + 2] = b'\x00\x01'
+        for name, vals in (('delta', [1, 1, 1]), ('Mdc', [-1, 0, 0, 0, 0, 1, 0, -1, 0]), ('Pxyz_c', [0, 0, 0])):
+            oo = lay[name][1]
+            b[oo:oo + 4 * len(vals)] = b''.join(struct.pack('>f', v) for v in vals)
+        expect = bytes(b)
+    return expect
+
+
+def oracle_mem(case, out):
+    """Independence stated on the real objects, step by step: an operation changes the ONE object it is applied to
+    (a write through a container: the containers the caller itself made on that memory) and creates at most one new
+    object with the expected bytes; a header is built from the bytes its block holds at that moment and never follows
+    the block afterwards, never shares state with another header and never writes into the caller's memory."""
+    d = case.data
+    cls = d['cls']
+    K = classes()[cls]
+    ex = case.extra
+    if out.startswith('ERR:OverflowError'):
+        return None           # stated exclusion (vox_offset = -inf in check_fix), see oracle_chk
+    snaps = ex['snaps']
+    lay = {f[0]: f for f in layout_of(K)}
+    group = []                # memory group of every container, as the CALLER built them
+    for t, st in enumerate(d['script']):
+        o = st[0]
+        what = mem_tokens([st])[0][:40]
+        if t + 1 >= len(snaps):
+            return f'{cls}: step {t} ({what}) of the history raised {ex["exc"]}'
+        before, after = dict(snaps[t]), dict(snaps[t + 1])
+        nb_, nh_ = len(group), sum(1 for k in before if k[0] == 'h')
+        changed = sorted(k for k in before if after.get(k) != before[k])
+        created = sorted(k for k in after if k not in before)
+        hb = lambda k: bytes.fromhex(before[k].split(':')[1].replace('-', ''))
+        bb = lambda k: bytes.fromhex(before[k].replace('-', ''))
+        tag = f'{cls}: step {t} ({what})'
+        allowed, want_new = set(), None
+        if o == 'A':
+            group.append(max(group, default=-1) + 1)
+            want_new = ('b%d' % nb_, (st[2] or '-'))
+        elif o == 'V':
+            group.append(group[st[1]])
+            want_new = ('b%d' % nb_, before['b%d' % st[1]])
+        elif o == 'B':
+            group.append(max(group, default=-1) + 1)
+            want_new = ('b%d' % nb_, before['h%d' % st[1]].split(':')[1])
+        elif o == 'P':
+            bs = bytes.fromhex(st[3]) if st[3] else b''
+            for k in range(nb_):
+                if group[k] == group[st[1]]:
+                    allowed.add('b%d' % k)
+                    old = bb('b%d' % k)
+                    want = old[:st[2]] + bs + old[st[2] + len(bs):]
+                    if bytes.fromhex(after['b%d' % k].replace('-', '')) != want:
+                        return f'{tag}: container b{k} on the written memory does not hold the written bytes'
+            hs = [k for k in changed if k[0] == 'h']
+            if hs:
+                return (f'{tag}: the caller overwriting ITS buffer changed header {hs[0]} — the header is not independent '
+                        f'of the block it was built from (history {mem_tokens(d["script"][:t + 1])[1:]}, container kinds '
+                        f'{[s[1] for s in d["script"] if s[0] == "A"]})')
+        elif o in 'CF':
+            src = bb('b%d' % st[1])
+            blk = src if o == 'C' else src[st[2]:st[2] + K.template_dtype.itemsize]
+            e = st[2] if o == 'C' else st[3]
+            want_e = '>' if cls == 'mgh' else (None if e == '?' else resolve(e))
+            got_e, got = after.get('h%d' % nh_, ':').split(':')
+            if created != ['h%d' % nh_]:
+                return f'{tag}: expected exactly one new header, got {created}'
+            if bytes.fromhex(got.replace('-', '')) != expect_ctor_bytes(cls, K, blk):
+                return f'{tag}: the header built from the block serialises to different bytes'
+            if want_e is not None and got_e != want_e:
+                return f'{tag}: built with endianness {e!r} (= {want_e}) but reports {got_e}'
+        elif o == 'S':
+            h = 'h%d' % st[1]
+            allowed.add(h)
+            n, off, isz, cnt, kind = lay[st[2]]
+            order = 'little' if before[h][0] == '<' else 'big'
+            old = hb(h)
+            want = old[:off] + b''.join(int(p).to_bytes(isz, order) for p in st[3]) + old[off + isz * cnt:]
+            if after[h] != before[h][0] + ':' + want.hex():
+                return f'{tag}: assigning field {st[2]} did not produce the expected bytes'
+        elif o == 'X':
+            allowed.add('h%d' % st[1])
+        elif o in 'KHY':
+            h = 'h%d' % st[1]
+            e0 = before[h][0]
+            tgt = e0 if o in 'KH' else (SWAPPED if e0 == NATIVE else NATIVE) if st[2] is None else resolve(st[2])
+            wantb = hb(h) if tgt == e0 else own_swap(hb(h), K)
+            if created != ['h%d' % nh_]:
+                return f'{tag}: expected exactly one new header, got {created}'
+            if after['h%d' % nh_] != tgt + ':' + wantb.hex():
+                return f'{tag}: the new header does not hold the {"same" if tgt == e0 else "byte-swapped"} bytes in order {tgt}'
+            if ex['hdrs'][nh_] is ex['hdrs'][st[1]]:
+                return f'{tag}: returned the same object'
+        if want_new is not None:
+            if created != [want_new[0]] or after[want_new[0]] != want_new[1]:
+                return f'{tag}: new container does not hold the expected bytes'
+        bad = [k for k in changed if k not in allowed]
+        if bad:
+            k = bad[0]
+            kindtxt = 'the caller\'s container' if k[0] == 'b' else 'header'
+            return (f'{tag}: changed {kindtxt} {k}, an object the operation was not applied to — objects are not '
+                    f'independent (history {mem_tokens(d["script"][:t + 1])[1:]}, container kinds '
+                    f'{[s[1] for s in d["script"] if s[0] == "A"]})')
+    return None
+
+
+# ------------------------------------------------------------------ NIfTI headers carrying extensions (oracle only)
+
+NIFTI_CLASSES = ['nifti1', 'nifti1pair', 'nifti2', 'nifti2pair']
+
+
+def mk_ext(cls, e, bs, exts, stream='ext'):
+    """A NIfTI header with a list of extensions [(code, content hex)]: copy(), as_byteswapped(same order),
+    from_header to every Analyze-family class."""
+    data = {'op': 'ext', 'cls': cls, 'e': e, 'hex': bs.hex(), 'exts': [[int(c), h] for c, h in exts], 'stream': stream}
+    return Case(None, data, ('ext', cls, e, _sha(bs), tuple((int(c), h) for c, h in exts)) if exts else None, stream)
+
+
+def _ext_list(h):
+    return [(int(x.get_code()), bytes(x.get_content())) for x in getattr(h, 'extensions', [])]
+
+
+def impl_ext(case):
+    d = case.data
+    Ks = classes()
+    K = Ks[d['cls']]
+    X = nb()['nifti1'].Nifti1Extension
+    src = K(bytes.fromhex(d['hex']), d['e'], check=False,
+            extensions=[X(c, bytes.fromhex(h)) for c, h in d['exts']])
+    res = {'copy': src.copy(), 'same': src.as_byteswapped(src.endianness)}
+    from nibabel.spatialimages import HeaderDataError
+    for dst in ANALYZE_FAMILY:
+        try:
+            res['to-' + dst] = Ks[dst].from_header(src, check=False)
+        except HeaderDataError:       # dtype / dimension the target cannot hold: the fromhdr stream judges that
+            pass
+    case.extra = {'src': src, 'res': res}
+    show = lambda h: '[' + ','.join(f'{c}:{b.hex() or "-"}' for c, b in _ext_list(h)) + ']'
+    return f'src={show(src)} ' + ' '.join(f'{k}={show(v)}' for k, v in res.items())
+
+
+def oracle_ext(case, out):
+    d = case.data
+    ex = case.extra
+    src, res = ex['src'], ex['res']
+    want = [(int(c), bytes.fromhex(h)) for c, h in d['exts']]
+    if _ext_list(src) != want:
+        return f'{d["cls"]}: header constructed with extensions {d["exts"]} reports {_ext_list(src)}'
+    for k, h in res.items():
+        nifti_target = k in ('copy', 'same') or k[3:] in NIFTI_CLASSES
+        if nifti_target and _ext_list(h) != want:
+            return (f'{d["cls"]} endian {d["e"]}: {k}: the extensions of the source header '
+                    f'({[c for c, _ in want]}) became {[c for c, _ in _ext_list(h)]}')
+        if nifti_target and h.extensions is src.extensions:
+            return f'{d["cls"]}: {k}: the new header shares the extension LIST object with the source'
+    # the lists are independent: dropping the copy's extensions leaves the original's
+    c = res['copy']
+    del c.extensions[:]
+    if _ext_list(src) != want:
+        return f'{d["cls"]}: emptying the extension list of a copy changed the original (copies are not independent)'
+    if src.binaryblock != bytes.fromhex(d['hex']):
+        return f'{d["cls"]}: copying / converting a header with extensions changed its bytes'
+    return None
+
+
 class _Rec:
     """Recording logger: what `Report.log_raise` hands to `logger.log`."""
 
@@ -694,8 +1089,9 @@ def impl_pfix(case):
     from nibabel.spatialimages import HeaderDataError
     from nibabel import imageglobals as ig
     BatteryRunner = nb()['batteryrunners'].BatteryRunner
+    blk = wrap_block(d.get('ck'), bs)
     try:
-        h = make_hdr(cls, e, bs)
+        h = make_hdr(cls, e, blk)
     except WrapStructError:
         return 'ERR:WrapStructError'
     except KeyError:
@@ -703,7 +1099,7 @@ def impl_pfix(case):
     br = BatteryRunner(K._get_checks())
     bb0 = h.binaryblock
     steps = []
-    ex = {'bb0': bb0, 'K': K, 'steps': steps}
+    ex = {'bb0': bb0, 'K': K, 'steps': steps, 'blk': blk}
     case.extra = ex
     old_logger = ig.logger
     ex['level_before'] = ig.error_level
@@ -806,6 +1202,10 @@ def impl(case):
         return impl_pfix(case)
     if op == 'world':
         return impl_world(case)
+    if op == 'mem':
+        return impl_mem(case)
+    if op == 'ext':
+        return impl_ext(case)
     if op == 'fromhdr':
         return impl_fromhdr(case)
     return impl_simple(case)
@@ -1090,6 +1490,138 @@ def _sha(bs):
     return hashlib.sha1(bs).hexdigest()[:12]
 
 
+def gen_mem_history(rng, cls, e, kind, n_tail, defect=False):
+    """One history for class `cls` / byte order `e` whose first container is of kind `kind` and holds a populated
+    header block; a header is built from it at once, then `n_tail` operations drawn from everything a caller can do
+    with the containers (view, overwrite — whole block with the NEXT record, one field, one byte —, build further
+    headers from the same or another block in either order or guessed, read through a file object) and with the
+    headers (assign a field, check_fix, copy, from_header, as_byteswapped to the same / other order, keep binaryblock)."""
+    K = classes()[cls]
+    size = K.template_dtype.itemsize
+    ee = '>' if cls == 'mgh' else e
+
+    def block():
+        h = build_header(rng, cls, ee)
+        if defect:
+            D = defect_table(cls, K)
+            for dn in rng.sample(sorted(D), min(len(D), rng.randrange(1, 3))):
+                D[dn](rng, h)
+            if 'vox_offset' in K.template_dtype.names and float(h['vox_offset']) == float('-inf'):
+                h['vox_offset'] = 0
+        return fill_free(rng, K, h.binaryblock, p=0.3)
+
+    def sp(order=None):
+        if cls == 'mgh':
+            return '>'
+        order = order or rng.choice([e, e, e, '<', '>'])
+        for _ in range(20):
+            a = spell(rng, order)
+            if _tok_ok(a):
+                return a
+        return order
+
+    numf = [f for f in layout_of(K) if f[4] != 'S']
+    fields = layout_of(K)
+    conts, script, nh = [], [], 0
+
+    def add_A(k, first=False):
+        blk = block()
+        if k == 'bytesio':
+            pre = bytes(rng.getrandbits(8) for _ in range(rng.randrange(0, 9)))
+            content, hoff = pre + blk + bytes(16), len(pre)
+        else:
+            content, hoff = blk, 0
+        script.append(['A', k, content.hex()])
+        conts.append({'w': MEM_KINDS[k][0], 'file': k == 'bytesio', 'len': len(content), 'hoff': hoff,
+                      'ctor': k != 'bytesio' and (cls != 'mgh' or k in MGH_KINDS)})
+
+    def ctor_ok():
+        return [i for i, c in enumerate(conts) if c['ctor'] and c['len'] == size]
+
+    def files():
+        return [i for i, c in enumerate(conts) if c['file']]
+
+    def add_ctor(i):
+        nonlocal nh
+        script.append(['C', i, '?' if (cls != 'mgh' and rng.random() < 0.1) else sp()])
+        nh += 1
+
+    def add_F(i):
+        nonlocal nh
+        script.append(['F', i, conts[i]['hoff'], '?' if rng.random() < 0.1 else sp()])
+        nh += 1
+
+    def add_P(i):
+        c = conts[i]
+        r = rng.random()
+        if r < 0.4:
+            off, bs = c['hoff'], block()
+        elif r < 0.8:
+            n, foff, isz, cnt, kd = rng.choice(fields)
+            off, bs = c['hoff'] + foff, bytes(rng.getrandbits(8) for _ in range(isz * cnt))
+        else:
+            off, bs = c['hoff'] + rng.randrange(size), bytes([rng.getrandbits(8)])
+        script.append(['P', i, off, bs.hex()])
+
+    def add_S():
+        f = rng.choice(numf)
+        script.append(['S', rng.randrange(nh), f[0], [rng.getrandbits(8 * f[2]) for _ in range(f[3])]])
+
+    add_A(kind)
+    if kind == 'bytesio':
+        add_F(0)
+    else:
+        add_ctor(0)
+    poked = False
+    for _ in range(n_tail):
+        ops = []
+        wr = [i for i, c in enumerate(conts) if c['w']]
+        if wr:
+            ops += ['P'] * 4
+        if ctor_ok():
+            ops += ['C'] * 3
+        if files() and cls != 'mgh':
+            ops += ['F'] * 2
+        ops += ['V'] * 2 + ['A']
+        if nh:
+            ops += ['S'] * 3 + ['X', 'K', 'Y', 'B']
+            if cls != 'ecat':        # EcatHeader inherits SpatialHeader.from_header (generic field copy, no `check`)
+                ops += ['H']
+        o = rng.choice(ops)
+        if o == 'P':
+            add_P(rng.choice(wr))
+            poked = True
+        elif o == 'C':
+            add_ctor(rng.choice(ctor_ok()))
+        elif o == 'F':
+            add_F(rng.choice(files()))
+        elif o == 'V':
+            i = rng.randrange(len(conts))
+            vk = rng.choice(sorted(MEM_VIEWS))
+            script.append(['V', i, vk])
+            conts.append({'w': conts[i]['w'] and not MEM_VIEWS[vk], 'file': False, 'len': conts[i]['len'],
+                          'hoff': conts[i]['hoff'], 'ctor': cls != 'mgh'})
+        elif o == 'A':
+            add_A(rng.choice(MGH_KINDS if cls == 'mgh' else sorted(MEM_KINDS)))
+        elif o == 'S':
+            add_S()
+        elif o in 'XKHB':
+            script.append([o, rng.randrange(nh)])
+            nh += o in 'KH'
+            if o == 'B':
+                conts.append({'w': False, 'file': False, 'len': size, 'hoff': 0, 'ctor': True})
+        elif o == 'Y':
+            r = rng.random()
+            to = sp('>') if cls == 'mgh' else (None if r < 0.3 else sp(rng.choice('<>')))
+            script.append(['Y', rng.randrange(nh), to])
+            nh += 1
+    if conts[0]['w'] and (not poked or rng.random() < 0.5):
+        add_P(0)                     # the caller re-uses the buffer the first header was built from
+    if rng.random() < 0.5:
+        add_S()
+    return mk_mem(cls, script, 'mem-' + kind)
+
+
 def cases(rng, tier):
     K = classes()
     out = []
@@ -1103,6 +1635,8 @@ def cases(rng, tier):
         if op == 'hdr' and 'to' not in kw:
             r = rng.random()
             kw['to'] = any_spelling(rng) if r < 0.9 else (rng.choice(BAD_SPELLINGS) if r < 0.93 else None)
+        if 'ck' not in kw and rng.random() < 0.6:
+            kw['ck'] = rng.choice(block_kinds(cls))       # the block in any bytes-like container
         return mk_case(op, cls, e, bs, stream, **kw)
 
     # ---- every spelling of the byte order, as constructor argument and as as_byteswapped target
@@ -1131,7 +1665,8 @@ def cases(rng, tier):
         lvls = [None if rng.random() < 0.3 else rng.choice(LEVEL_POOL) for _ in range(n)]
         if first is not None:
             lvls[0] = first
-        return mk_pfix(cls, e, glob, lvls, bs, stream, valid=valid, lg=rng.choice(['arg', 'glob']), nontrivial=nontrivial)
+        return mk_pfix(cls, e, glob, lvls, bs, stream, valid=valid, lg=rng.choice(['arg', 'glob']), nontrivial=nontrivial,
+                       ck=rng.choice(block_kinds(cls)) if rng.random() < 0.6 else None)
 
     n_set = {'quick': 14, 'thorough': 300, 'search': 40}[tier]
     n_raw = {'quick': 6, 'thorough': 150, 'search': 20}[tier]
@@ -1284,6 +1819,22 @@ def cases(rng, tier):
                         f = rng.choice(numf)
                         script.append(('s', rng.randrange(nobj), f[0], [rng.getrandbits(8 * f[2]) for _ in range(f[3])]))
                 out.append(mk_world(cls, '>' if cls == 'mgh' else spell(rng, e), bb, script))
+    # ---- who owns the bytes: binaryblock container kind x class x byte order, then histories on buffers and headers
+    n_mem = {'quick': 2, 'thorough': 10, 'search': 3}[tier]
+    for cls in K:
+        for e in (('>',) if cls == 'mgh' else ('<', '>')):
+            for kind in (MGH_KINDS if cls == 'mgh' else sorted(MEM_KINDS)):
+                for j in range(n_mem):
+                    out.append(gen_mem_history(rng, cls, e, kind, rng.randrange(3, 8 if tier == 'quick' else 11),
+                                               defect=(j % 3 == 1)))
+    # ---- NIfTI headers carrying extensions: copy / same-order as_byteswapped / from_header keep them
+    for cls in NIFTI_CLASSES:
+        for e in '<>':
+            for j in range({'quick': 3, 'thorough': 20, 'search': 5}[tier]):
+                bb = build_header(rng, cls, e).binaryblock
+                exts = [(rng.choice([0, 4, 6, 6, 99, 1000, 40]), bytes(rng.getrandbits(8) for _ in range(rng.randrange(0, 20))).hex())
+                        for _ in range(j if j < 3 else rng.randrange(0, 5))]
+                out.append(mk_ext(cls, spell(rng, e), bb, exts))
     # ---- from_header: dimensions that do not fit the target's dim item, negative / odd pixdims
     for cls in ANALYZE_FAMILY:
         for e in '<>':
@@ -1666,16 +2217,33 @@ def oracle_fromhdr(case, out):
     return None
 
 
+def _block_untouched(case, res):
+    """After everything the case did with the header (field writes on it and its copies, byte swaps, repairs at
+    any error level), the container the caller passed as `binaryblock` still holds the bytes it held."""
+    ex = case.extra
+    if res is None and isinstance(ex, dict) and ex.get('blk') is not None:
+        d = case.data
+        bs = b'' if d['hex'] == '-' else bytes.fromhex(d['hex'])
+        if mem_bytes(ex['blk']) != bs:
+            return (f'{d["cls"]}: operations on a header built from a {d.get("ck", "bytes")} block wrote into the '
+                    f"caller's block (the header is not independent of the buffer it was built from)")
+    return res
+
+
 def oracle(case, out):
     op = case.data['op']
     if op == 'hdr':
-        return oracle_hdr(case, out)
+        return _block_untouched(case, oracle_hdr(case, out))
     if op == 'chk':
-        return oracle_chk(case, out)
+        return _block_untouched(case, oracle_chk(case, out))
     if op == 'pfix':
-        return oracle_pfix(case, out)
+        return _block_untouched(case, oracle_pfix(case, out))
     if op == 'world':
         return oracle_world(case, out)
+    if op == 'mem':
+        return oracle_mem(case, out)
+    if op == 'ext':
+        return oracle_ext(case, out)
     if op == 'fromhdr':
         return oracle_fromhdr(case, out)
     if op == 'dt':
@@ -1700,6 +2268,8 @@ def signature(case, what):
     d = case.data
     op = d['op']
     w = what.lower()
+    if op in ('hdr', 'chk', 'pfix') and "caller's block" in w:
+        return f'{op}:{d["cls"]}:block-written'
     if op == 'hdr':
         for k, t in (('serialises to different', 'bytes-roundtrip'), ('detected as', 'endian-guess'), ('differs from the bytes', 'field-values'),
                      ('as_byteswapped(', 'byteswap-to'), ('spelling', 'endian-spelling'), ('built with endianness', 'endian-spelling'),
@@ -1716,6 +2286,14 @@ def signature(case, what):
         return f'chk:{d["cls"]}:other'
     if op == 'world':
         return f'world:{d["cls"]}:' + ('not-independent' if 'changed' in w else 'other')
+    if op == 'ext':
+        return f'ext:{d["cls"]}:' + ('extensions-lost' if 'became' in w else 'not-independent' if 'independent' in w or 'shares' in w else 'other')
+    if op == 'mem':
+        for k, t in (('not independent', 'not-independent'), ('raised', 'raise'), ('serialises to different', 'bytes-roundtrip'),
+                     ('endianness', 'endian-spelling'), ('same object', 'same-object')):
+            if k in w:
+                return f'mem:{d["cls"]}:{t}'
+        return f'mem:{d["cls"]}:other'
     if op == 'pfix':
         for k, t in (('idempotent', 'not-idempotent'), ('depends on the error level', 'level-dependent-repair'),
                      ('altered', 'noop'), ('still reports', 'not-repaired'), ('public setters', 'valid-flagged'),
@@ -1743,6 +2321,11 @@ def signature(case, what):
 
 def shrink_candidates(case):
     d = case.data
+    if d['op'] == 'mem':
+        sc = d['script']
+        for k in range(2, len(sc)):             # shorter histories: prefixes
+            yield mk_mem(d['cls'], sc[:k], d.get('stream', 'shrunk'))
+        return
     if d['op'] not in ('hdr', 'chk', 'pfix') or d['hex'] == '-':
         return
     K = classes()[d['cls']]
@@ -1756,12 +2339,12 @@ def shrink_candidates(case):
         return
     if d['op'] == 'pfix':
         mk = lambda b2, lvls=None: mk_pfix(d['cls'], d['e'], d['glob'], d['lvls'] if lvls is None else lvls, b2,
-                                           d.get('stream', 'shrunk'), d.get('valid', False), d.get('lg', 'arg'))
+                                           d.get('stream', 'shrunk'), d.get('valid', False), d.get('lg', 'arg'), ck=d.get('ck'))
         if len(d['lvls']) > 2:
             yield mk(bs, d['lvls'][:2])
             yield mk(bs, d['lvls'][:1] + d['lvls'][2:])
         if d['glob'] != 40 and None not in d['lvls']:
-            yield mk_pfix(d['cls'], d['e'], 40, d['lvls'], bs, d.get('stream', 'shrunk'), d.get('valid', False), 'arg')
+            yield mk_pfix(d['cls'], d['e'], 40, d['lvls'], bs, d.get('stream', 'shrunk'), d.get('valid', False), 'arg', ck=d.get('ck'))
         for n, off, isz, cnt, kind in layout_of(K):
             ln = isz * cnt
             if bs[off:off + ln] != base[off:off + ln]:
@@ -1773,4 +2356,4 @@ def shrink_candidates(case):
         if bs[off:off + ln] != base[off:off + ln]:
             b2 = bs[:off] + base[off:off + ln] + bs[off + ln:]
             yield mk_case(d['op'], d['cls'], d['e'], b2, d.get('stream', 'shrunk'), d.get('valid', False), d.get('etrue'),
-                          to=d.get('to'))
+                          to=d.get('to'), ck=d.get('ck'))
